@@ -24,3 +24,38 @@ package crypto
 //@ func Keccak256Hash
 //@   trusted
 //@   assigns nothing
+
+// ---- proof-of-work hash dispatch (C14) ---------------------------------------------------------
+// Seed words: the 40-byte seal seed as five big-endian 64-bit words.
+//@ macro seedw(d, k) = old(word8(arr(d), off(d) + k))
+//@ macro oneseed(data) = old(len(data) == 1 && len(data[0]) == 40)
+
+// Argon2id A/B/C differ only in memory: 1 KiB, 16 KiB, 32 KiB; one pass, one lane, no salt,
+// 32-byte digest. The parameters handed to argon2 are proved; the digest value is an axiom
+// (uninterpreted function of memory and seed; the buffer concatenation is not modelled).
+//@ func Argon2idA
+//@   ensures[C14] @params argon_mem == 1 && argon_time == 1 && argon_threads == 1 && argon_keylen == 32 && argon_saltlen == 0
+//@   ensures[C14] @len len(result) == 32 && fresh(result)
+//@   axiom oneseed(data) ==> bigofbytes(arr(result), off(result), 32) == argonv(1, seedw(data[0], 0), seedw(data[0], 8), seedw(data[0], 16), seedw(data[0], 24), seedw(data[0], 32))
+//@   assigns argon_time, argon_mem, argon_threads, argon_keylen, argon_saltlen, inferred
+
+//@ func Argon2idB
+//@   ensures[C14] @params argon_mem == 16 && argon_time == 1 && argon_threads == 1 && argon_keylen == 32 && argon_saltlen == 0
+//@   ensures[C14] @len len(result) == 32 && fresh(result)
+//@   axiom oneseed(data) ==> bigofbytes(arr(result), off(result), 32) == argonv(16, seedw(data[0], 0), seedw(data[0], 8), seedw(data[0], 16), seedw(data[0], 24), seedw(data[0], 32))
+//@   assigns argon_time, argon_mem, argon_threads, argon_keylen, argon_saltlen, inferred
+
+//@ func Argon2idC
+//@   ensures[C14] @params argon_mem == 32 && argon_time == 1 && argon_threads == 1 && argon_keylen == 32 && argon_saltlen == 0
+//@   ensures[C14] @len len(result) == 32 && fresh(result)
+//@   axiom oneseed(data) ==> bigofbytes(arr(result), off(result), 32) == argonv(32, seedw(data[0], 0), seedw(data[0], 8), seedw(data[0], 16), seedw(data[0], 24), seedw(data[0], 32))
+//@   assigns argon_time, argon_mem, argon_threads, argon_keylen, argon_saltlen, inferred
+
+// Version 1 is keccak256, versions 2, 3, 4 are argon2id with 1, 16, 32 KiB; anything else panics.
+//@ func VersionHash
+//@   requires v >= 1 && v <= 4
+//@   ensures[C14] @algo (v == 2 ==> argon_mem == 1) && (v == 3 ==> argon_mem == 16) && (v == 4 ==> argon_mem == 32) && (v == 1 ==> argon_mem == old(argon_mem))
+//@   ensures[C14] @len len(result) == 32 && fresh(result)
+//@   ensures[C14] @value oneseed(data) ==> bigofbytes(arr(result), off(result), 32) == vhash(v, seedw(data[0], 0), seedw(data[0], 8), seedw(data[0], 16), seedw(data[0], 24), seedw(data[0], 32))
+//@   assigns argon_time, argon_mem, argon_threads, argon_keylen, argon_saltlen, inferred
+//@   nopanic[C14]
